@@ -122,10 +122,13 @@ impl Sim {
         let n_den = case.n_denoms.clamp(1, 4);
         let n_val = case.n_validators.min(3);
         let mut names = Names { prefix: prefix.to_string(), ..Default::default() };
-        let plain = (case.plain_accounts as u32).min(2).min(n_acc.saturating_sub(1));
+        let plain = (case.plain_accounts as u32).min(3).min(n_acc.saturating_sub(1));
+        // the third kind: a valid bech32 address of this chain written in capitals (it canonicalizes, but does
+        // not validate; as a sender it is just another account)
+        let shouting = api.addr_make("shouting").to_string().to_uppercase();
         for i in 0..n_acc {
             if i >= n_acc - plain {
-                names.accounts.push(["owner", "OWNER"][(n_acc - 1 - i) as usize].to_string());
+                names.accounts.push(["owner", "OWNER", shouting.as_str()][(n_acc - 1 - i) as usize].to_string());
             } else {
                 names.accounts.push(api.addr_make(&format!("account{}", i)).to_string());
             }
